@@ -39,6 +39,10 @@ type Item struct {
 	Returns bool   // OPT/case body ends by returning (union)
 	Text    string // source text for UNKNOWN
 	Pos     token.Pos
+	// REC written by an encoder: the record is a struct whose wire size is the
+	// constant Fixed (all of its fields have fixed sizes, per the spec table)
+	FixedOK bool
+	Fixed   int
 }
 
 type Case struct {
